@@ -165,7 +165,9 @@ class Run:
         return self.timed_out is False and (self.rc not in (0, 1) or "panicked at" in self.err)
 
 
-def run(argv, cwd=None, hash_seed=None, timeout=60, env_extra=None, stdin=None):
+def run(argv, cwd=None, hash_seed=None, timeout=60, env_extra=None, stdin=None, cpu_limit=None):
+    """cpu_limit: RLIMIT_CPU in seconds for the child. Unlike the wall-clock timeout (a watchdog whose firing is inconclusive), CPU
+    time does not depend on how loaded the machine is: a child killed by SIGXCPU really computed for that long."""
     env = dict(os.environ)
     env.pop("LD_PRELOAD", None)
     env.pop("VERIF_HASH_SEED", None)
@@ -176,14 +178,20 @@ def run(argv, cwd=None, hash_seed=None, timeout=60, env_extra=None, stdin=None):
     if env_extra:
         env.update(env_extra)
     try:
-        p = subprocess.run(argv, cwd=cwd, env=env, capture_output=True, timeout=timeout, stdin=subprocess.DEVNULL)
+        pre = None
+        if cpu_limit:
+            import resource
+
+            def pre(_l=int(cpu_limit)):
+                resource.setrlimit(resource.RLIMIT_CPU, (_l, _l + 5))
+        p = subprocess.run(argv, cwd=cwd, env=env, capture_output=True, timeout=timeout, stdin=subprocess.DEVNULL, preexec_fn=pre)
         return Run(p.returncode, p.stdout.decode("utf-8", "replace"), p.stderr.decode("utf-8", "replace"))
     except subprocess.TimeoutExpired as e:
         return Run(None, (e.stdout or b"").decode("utf-8", "replace"), (e.stderr or b"").decode("utf-8", "replace"), True)
 
 
 def cli_generate(cli, project=None, out=None, mode=None, cwd=None, force=False, verbose=False, viz=False,
-                 config=None, hash_seed=None, timeout=60, extra=None):
+                 config=None, hash_seed=None, timeout=60, extra=None, cpu_limit=None):
     argv = [cli, "tauri-typegen", "generate"]
     if project is not None:
         argv += ["-p", project]
@@ -201,7 +209,7 @@ def cli_generate(cli, project=None, out=None, mode=None, cwd=None, force=False, 
         argv.append("--visualize-deps")
     if extra:
         argv += extra
-    return run(argv, cwd=cwd, hash_seed=hash_seed, timeout=timeout)
+    return run(argv, cwd=cwd, hash_seed=hash_seed, timeout=timeout, cpu_limit=cpu_limit)
 
 
 TS_LINE = re.compile(r"^ \* Generated at: .*\n", re.M)
